@@ -169,6 +169,9 @@ func runPermits(o *Out, r *rand.Rand, thorough bool, _ []string) {
 	if thorough {
 		reps = 20
 	}
+	if metricsOn && !thorough {
+		reps = 1
+	}
 	for rep := 0; rep < reps; rep++ {
 		for _, kind := range kinds {
 			for _, version := range []uint8{0, 1} {
